@@ -12,14 +12,31 @@
 //              arena1  task_arena(1).execute( the tg scenario )            (an arena with a single slot)
 //              outer   the main thread calls tbb::task::suspend outside of any task (its own stack is suspended at the
 //                      outermost level; if a worker resumes it the owner is recalled), then the tg scenario
+//              nwait   the suspending tasks are in an INNER task_group; a task of the outer group, spawned before them,
+//                      waits for the inner group (nested dispatch loop: no enqueued tasks, and with nest bit 1 inside
+//                      this_task_arena::isolate) — with P = 1 it runs on a coroutine while the tasks it waits for are
+//                      suspended, so only that nested loop can pick up their resume tasks
 //   P          max_allowed_parallelism (1: no workers at all)
 //   modes      one letter per suspension:  f = resume(sp) from a foreign controlled thread, t = from a task spawned by the
-//              callback (task_group containers only), s = from inside the suspend callback itself
+//              callback (task_group containers only), s = from inside the suspend callback itself,
+//              p = from a task spawned into the task_group BEFORE suspending (outside of any isolate region),
+//              q = from a task enqueued into the arena before suspending,
+//              i = from a task spawned INSIDE the isolate region before suspending (isolated work; implies isolate),
+//              w = from a foreign thread that first waits until a task spawned before the suspension ("prework", not
+//                  isolated) has been executed: the liveness clause "the thread that suspended keeps executing other work"
+//              UPPER CASE letter: the suspension is made inside this_task_arena::isolate
 //   nwork      number of additional plain tasks ("other work")
-//   nest       1: the callback of suspension i spawns the task of suspension i+1 (nested suspensions on coroutine stacks)
+//   nest       bit 2 (value 4): the main thread calls the blocking tbb::finalize without waiting for the foreign resumers
+//              bit 0: the callback of suspension i spawns the task of suspension i+1 (nested suspensions on coroutine
+//              stacks; with upper-case letters: nested isolate + nested suspend)
+//   sr ... guide <seed> <spec>      state-guided schedule (see GuidedSchedule below), e.g. to drive the suspending thread
+//              through its idle back-off into out_of_work() and the sleep, and to place the foreign resume() at a chosen
+//              scheduling point of that path
 //
 // Output: the events on the named variables (m_stack_state / m_is_owner_recalled of every suspend point, the resume and
-// critical stream population words, the arena slots' occupancy flags) and the harness notes, in execution order; then
+// critical stream population words, the arena slots' occupancy flags, the pool state of every arena, the epoch and
+// wait-set size of the waiting-threads monitor; poolL / rtsL / ctsL = the arena of the thread that made suspension 0)
+// and the harness notes, in execution order (environment C20_ALL_EVENTS=1: also the unnamed accesses, prefixed x); then
 //   sp <name> <co|slot i>, mon <ok|text>, stat ..., sched <rle>
 // exit code: 0 ok, 1 a property monitor failed, 3 deadlock.
 #include "oneapi/tbb/task_group.h"
@@ -50,9 +67,18 @@ struct Susp {
     int cb_runs = 0, resume_calls = 0, conts = 0, in_cont = 0, cont_done = 0;
     int work_by_suspender = 0;       // other tasks the suspending thread executed between the callback and the continuation
     bool cont_before_call = false, concurrent_cont = false;
+    // liveness / dispatch-context observations
+    std::atomic<int> prework_done{0};
+    int prework_tid = -1; bool prework_during = false;   // who ran the pre-spawned task, and was the task suspended then
+    thread_data* td = nullptr;             // the suspending thread
+    task_dispatcher* disp = nullptr;       // the dispatcher that was suspended
+    long susp_iso = 0;                     // its isolation tag when suspend was called
+    bool co_seen = false; long co_iso_first = 0, co_iso_max = 0;   // isolation of the dispatcher the thread moved onto
+    const void* wscount = nullptr;         // my_waitset.count of the arena's waiting-threads monitor
+    const void *pooladdr = nullptr, *rtsaddr = nullptr, *ctsaddr = nullptr;   // the suspending thread's arena: pool state, stream populations
 };
 static Susp S[MAXS];
-static int g_P = 2, g_NS = 1, g_NW = 0, g_nest = 0;
+static int g_P = 2, g_NS = 1, g_NW = 0;
 static std::string g_container = "tg", g_modes = "f";
 static std::vector<std::string> g_viol;
 static int g_work_runs = 0;
@@ -60,6 +86,13 @@ static std::set<const void*> g_sps;          // every suspend_point_type seen
 static std::map<const void*, std::string> g_spkind;
 static tbb::task_group* g_tg = nullptr;
 static bool g_outer_ok = true;
+static int g_flags = 0;
+static std::atomic<int> g_foreign_done{0};   // foreign resumer threads that returned from all their resume() calls
+static int g_nforeign_bodies = 0;
+
+static char lower(char c) { return (c >= 'A' && c <= 'Z') ? char(c - 'A' + 'a') : c; }
+static bool isolated_mode(char c) { return (c >= 'A' && c <= 'Z') || c == 'i'; }
+static bool foreign_mode(char c) { c = lower(c); return c == 'f' || c == 'w'; }
 
 // gating for targeted schedules
 static volatile bool g_published0 = false, g_resumed0 = false;
@@ -93,27 +126,62 @@ static void other_work(int j) {
 
 static void suspending_task(int i);
 
+// a task spawned / enqueued BEFORE suspension i starts; `resumer`: it is the one that calls resume
+static void prework(int i, bool resumer) {
+    see_current();
+    int me = verif::self();
+    S[i].prework_tid = me;
+    S[i].prework_during = S[i].cb_runs && !S[i].conts;
+    for (int k = 0; k < g_NS; ++k)
+        if (S[k].cb_runs && !S[k].conts && S[k].cb_tid == me) S[k].work_by_suspender++;
+    verif::note("prework", (uint64_t)i, (uint64_t)resumer);
+    if (resumer) {
+        suspend_point_type* sp;
+        while (!(sp = S[i].sp.load())) verif::pause_point();     // P > 1: a thief may run this before the callback
+        do_resume(i, sp);
+    }
+    S[i].prework_done.store(1);
+}
+
 static void do_suspend(int i) {
     see_current();
     S[i].task_tid = verif::self();
-    char mode = g_modes[i];
-    tbb::task::suspend([i, mode](tbb::task::suspend_point sp) {
-        see_sp(sp);
-        S[i].cb_runs++;
-        S[i].cb_tid = verif::self();
-        verif::note("cb", (uint64_t)sp, (uint64_t)i);
-        if (g_nest && i + 1 < g_NS && g_tg) g_tg->run([i] { suspending_task(i + 1); });
-        if (mode == 's') {
-            do_resume(i, sp);
-        } else if (mode == 't') {
-            g_tg->run([i, sp] { see_current(); do_resume(i, sp); });
-        } else {
-            if (i == 0) { g_leaver0 = verif::self(); g_published0 = true; }
-            S[i].sp.store(sp);
-            (void)S[i].sp.load();     // a scheduling point inside the callback after the suspend point became visible
-        }
-        verif::note("cb_end", (uint64_t)sp, (uint64_t)i);
-    });
+    char mode = lower(g_modes[i]);
+    bool iso = isolated_mode(g_modes[i]);
+    // work that exists before the suspension starts (not isolated: spawned before the isolate region is entered)
+    if (mode == 'p' && g_tg) g_tg->run([i] { prework(i, true); });
+    if (mode == 'w') { if (g_tg) g_tg->run([i] { prework(i, false); }); else S[i].prework_done.store(1); }
+    if (mode == 'q') { tbb::task_arena a{tbb::task_arena::attach{}}; a.enqueue([i] { prework(i, true); }); }
+    auto body = [i, mode] {
+        if (mode == 'i' && g_tg) g_tg->run([i] { prework(i, true); });      // isolated work (carries the region's tag)
+        tbb::task::suspend([i, mode](tbb::task::suspend_point sp) {
+            see_sp(sp);
+            S[i].cb_runs++;
+            S[i].cb_tid = verif::self();
+            S[i].td = governor::get_thread_data();
+            S[i].disp = S[i].td->my_task_dispatcher;
+            S[i].susp_iso = (long)S[i].disp->m_execute_data_ext.isolation;
+            S[i].wscount = (const void*)&S[i].td->my_arena->get_waiting_threads_monitor().my_waitset.count;
+            S[i].pooladdr = (const void*)&S[i].td->my_arena->my_pool_state.my_state;
+            S[i].rtsaddr = (const void*)&S[i].td->my_arena->my_resume_task_stream.population;
+#if __TBB_PREVIEW_CRITICAL_TASKS
+            S[i].ctsaddr = (const void*)&S[i].td->my_arena->my_critical_task_stream.population;
+#endif
+            verif::note("cb", (uint64_t)sp, (uint64_t)i);
+            if ((g_flags & 1) && i + 1 < g_NS && g_tg) g_tg->run([i] { suspending_task(i + 1); });
+            if (mode == 's') {
+                do_resume(i, sp);
+            } else if (mode == 't') {
+                g_tg->run([i, sp] { see_current(); do_resume(i, sp); });
+            } else {
+                if (i == 0) { g_leaver0 = verif::self(); g_published0 = true; }
+                S[i].sp.store(sp);
+                (void)S[i].sp.load();     // a scheduling point inside the callback after the suspend point became visible
+            }
+            verif::note("cb_end", (uint64_t)sp, (uint64_t)i);
+        });
+    };
+    if (iso) tbb::this_task_arena::isolate(body); else body();
     // ---- the continuation ----
     if (!S[i].resume_calls) S[i].cont_before_call = true;
     if (++S[i].in_cont > 1) S[i].concurrent_cont = true;
@@ -139,16 +207,42 @@ static void check_after_wait(const char* what) {
     verif::note("wait_done", 0, 0);
 }
 
-static void tg_scenario(int first) {
+static void tg_scenario(int first, bool outer0 = false) {
     tbb::task_group tg;
     g_tg = &tg;
-    if (g_nest) {
-        if (first < g_NS) tg.run([first] { suspending_task(first); });
+    if (outer0) {
+        // the calling thread suspends outside of any task (its own stack is suspended at the outermost level)
+        int me = verif::self();
+        do_suspend(0);
+        if (verif::self() != me) { g_outer_ok = false; viol("code after an outermost suspend continued on a different thread than the one that called suspend"); }
+    }
+    if (g_flags & 1) {
+        // nested: the callback of suspension i spawns the task of suspension i+1 (the outermost suspension did that already)
+        if (first < g_NS && !outer0) tg.run([first] { suspending_task(first); });
     } else {
         for (int i = first; i < g_NS; ++i) tg.run([i] { suspending_task(i); });
     }
     for (int j = 0; j < g_NW; ++j) tg.run([j] { other_work(j); });
     tg.wait();
+    check_after_wait("task_group::wait");
+    g_tg = nullptr;
+}
+
+static void nwait_scenario() {
+    tbb::task_group tg, inner;
+    g_tg = &inner;
+    tg.run([&inner] {
+        see_current();
+        verif::note("nested_wait_begin", 0, 0);
+        if (g_flags & 2) tbb::this_task_arena::isolate([&inner] { inner.wait(); }); else inner.wait();
+        for (int i = 0; i < g_NS; ++i)
+            if (!S[i].cont_done) viol("nested task_group::wait returned while suspension " + std::to_string(i) + " had not continued (wait completed over a suspended task)");
+        verif::note("nested_wait_end", 0, 0);
+    });
+    for (int i = 0; i < g_NS; ++i) inner.run([i] { suspending_task(i); });
+    for (int j = 0; j < g_NW; ++j) tg.run([j] { other_work(j); });
+    tg.wait();
+    inner.wait();
     check_after_wait("task_group::wait");
     g_tg = nullptr;
 }
@@ -177,6 +271,11 @@ static void collect(arena* a) {
         if (d && d->m_suspend_point) g_sps.insert(d->m_suspend_point);
     }
     verif::name_addr(&a->my_resume_task_stream.population, "rts" + std::to_string(g_arenas.size()));
+    // the words of the resume-versus-sleep hand-shake (Model/C20Sleep.lean): the arena's pool state, and the epoch and
+    // wait-set size of the waiting-threads monitor (one monitor per threading_control, shared by all arenas)
+    verif::name_addr(&a->my_pool_state.my_state, "pool" + std::to_string(g_arenas.size()));
+    verif::name_addr(&a->get_waiting_threads_monitor().my_epoch, "mep");
+    verif::name_addr(&a->get_waiting_threads_monitor().my_waitset.count, "wsz");
 #if __TBB_PREVIEW_CRITICAL_TASKS
     verif::name_addr(&a->my_critical_task_stream.population, "cts" + std::to_string(g_arenas.size()));
 #endif
@@ -192,6 +291,9 @@ static void main_body() {
     } else if (g_container == "pfor") {
         pfor_scenario();
         collect(governor::get_thread_data()->my_arena);
+    } else if (g_container == "nwait") {
+        nwait_scenario();
+        collect(governor::get_thread_data()->my_arena);
     } else if (g_container == "arena1") {
         tbb::task_arena ta(1);
         ta.execute([] { tg_scenario(0); });
@@ -199,18 +301,21 @@ static void main_body() {
         thread_data* td = governor::get_thread_data_if_initialized();
         if (td) collect(td->my_arena);
     } else if (g_container == "outer") {
-        int me = verif::self();
-        do_suspend(0);
-        if (verif::self() != me) { g_outer_ok = false; viol("code after an outermost suspend continued on a different thread than the one that called suspend"); }
-        tg_scenario(1);
+        tg_scenario(1, true);
         collect(governor::get_thread_data()->my_arena);
     }
+    // A program joins the threads that call tbb::task::resume before it shuts the library down.  (nest bit 2 skips this:
+    // with max_allowed_parallelism 1, a resumer that is still between its push and advertise_new_work when the resumed
+    // task has finished and the main thread has left the arena re-marks the abandoned arena as non-empty; no worker
+    // exists to clear it, the arena is never destroyed, and the blocking tbb::finalize below spins forever in
+    // threading_control::wait_last_reference — a defect of the library outside this property; see the check's report.)
+    if (!(g_flags & 4)) while (g_foreign_done.load() < g_nforeign_bodies) verif::pause_point();
     tbb::finalize(h);
 }
 
 static void foreign_body(int k, int nf) {
     std::vector<int> mine;
-    for (int i = 0; i < g_NS; ++i) if (g_modes[i] == 'f' && (i % nf) == k) mine.push_back(i);
+    { int n = 0; for (int i = 0; i < g_NS; ++i) if (foreign_mode(g_modes[i])) { if ((n % nf) == k) mine.push_back(i); ++n; } }
     size_t left = mine.size();
     std::vector<bool> done(mine.size(), false);
     while (left) {
@@ -218,6 +323,8 @@ static void foreign_body(int k, int nf) {
         for (size_t j = 0; j < mine.size(); ++j) {
             if (done[j]) continue;
             suspend_point_type* sp = S[mine[j]].sp.load();
+            // mode w: resume only after the work that was spawned before the suspension has been executed
+            if (sp && lower(g_modes[mine[j]]) == 'w' && !S[mine[j]].prework_done.load()) sp = nullptr;
             if (sp) {
                 do_resume(mine[j], sp);
                 if (mine[j] == 0) g_resumed0 = true;
@@ -226,6 +333,7 @@ static void foreign_body(int k, int nf) {
         }
         if (!progress) verif::pause_point();
     }
+    g_foreign_done.fetch_add(1);
     governor::terminate_external_thread();
 }
 
@@ -249,6 +357,132 @@ struct TargetedSchedule : verif::Schedule {
         return rnd.pick(cur, en, step);
     }
 };
+
+// ---- observation of the dispatch context (white box, made at every scheduling point; plain reads under the baton) ----
+// For every suspension in progress: once the suspending thread is attached to another dispatcher than the one it
+// suspended, record that dispatcher's m_execute_data_ext.isolation (first value, and the maximum seen until the thread
+// runs a harness task or the suspension continues).
+static void sample_dispatch_context() {
+    for (int i = 0; i < g_NS; ++i) {
+        Susp& x = S[i];
+        if (!x.cb_runs || x.conts || !x.td || x.work_by_suspender) continue;
+        task_dispatcher* d = x.td->my_task_dispatcher;
+        if (!d || d == x.disp) continue;
+        long v = (long)d->m_execute_data_ext.isolation;
+        if (!x.co_seen) { x.co_seen = true; x.co_iso_first = v; x.co_iso_max = v; }
+        else if (v != 0 && x.co_iso_max == 0) x.co_iso_max = v;
+    }
+}
+struct Sampling : verif::Schedule {
+    verif::Schedule& in;
+    explicit Sampling(verif::Schedule& s) : in(s) {}
+    int pick(int cur, const std::vector<int>& en, size_t step) override { sample_dispatch_context(); return in.pick(cur, en, step); }
+};
+
+// ---- state-guided schedule -------------------------------------------------------------------------------------------
+// spec = guide;guide;...   guide = <who>:<cond>[|<cond>...]
+//   who   L the thread that made suspension 0 | F the foreign resumer (tid 1) | M the main thread (tid 0)
+//         W any other runtime thread (workers) | R any thread except F | A any thread
+//   cond  pub   suspension 0's callback published its suspend point        res   the foreign resume() of it returned
+//         busy  the leaver's arena my_pool_state holds a `busy` value (out_of_work's clear transaction is open)
+//         ss=<v> / rc=<v>   m_stack_state / m_is_owner_recalled of suspension 0's suspend point equals v
+//         cnt=<n>  the preferred thread(s) were picked n times under this guide
+//         blk   the preferred thread is blocked (not runnable although the ticker thread wrote shared state 3 times)
+// Under a guide only its preferred threads run; when none is runnable the ticker thread runs (its write makes spinning
+// threads runnable again), so everybody else is held where it is — wherever that is inside the library.  After the last
+// guide the schedule is seeded-random and the ticker ends.  Conditions are evaluated on the live memory of the runtime at
+// every scheduling point, so a guide pins down a window independently of instruction counts; the schedule actually taken
+// is recorded as a plain tid list and is what replays use.
+static volatile bool g_tick_stop = false;
+static std::atomic<long> g_tick{0};
+static int g_ticker_tid = -1, g_nforeign = 0;
+struct Cond { std::string k; long v; };
+struct Guide { char who; std::vector<Cond> conds; long picks = 0; int blk = 0; long starve = 0; };
+static std::vector<Guide> g_guides;
+struct GuideEnd { long picks; int pool, ws, blk; };
+static std::vector<GuideEnd> g_guide_picks;
+
+static bool parse_guides(const std::string& spec) {
+    std::istringstream is(spec); std::string g;
+    while (std::getline(is, g, ';')) {
+        if (g.size() < 3 || g[1] != ':') return false;
+        Guide gd; gd.who = g[0];
+        std::istringstream cs(g.substr(2)); std::string c;
+        while (std::getline(cs, c, '|')) {
+            size_t e = c.find('=');
+            gd.conds.push_back(e == std::string::npos ? Cond{c, 0} : Cond{c.substr(0, e), atol(c.c_str() + e + 1)});
+        }
+        g_guides.push_back(gd);
+    }
+    return !g_guides.empty();
+}
+
+struct GuidedSchedule : verif::Schedule {
+    verif::RandomSchedule rnd; size_t pos = 0;
+    explicit GuidedSchedule(uint64_t seed) : rnd(seed) {}
+    static bool has(const std::vector<int>& en, int t) { for (int x : en) if (x == t) return true; return false; }
+    static long rd(const void* p, size_t n) { long v = 0; memcpy(&v, p, n); return v; }
+    bool holds(const Guide& g) {
+        suspend_point_type* sp = (suspend_point_type*)rd((const void*)&S[0].sp, sizeof(void*));   // raw read: no scheduling point inside pick()
+        for (const Cond& c : g.conds) {
+            if (c.k == "pub") { if (g_published0) return true; }
+            else if (c.k == "res") { if (g_resumed0) return true; }
+            else if (c.k == "busy") { if (S[0].td && S[0].td->my_arena && rd(&S[0].td->my_arena->my_pool_state.my_state, sizeof(std::uintptr_t)) > 1) return true; }
+            else if (c.k == "ss") { if (sp && rd(&sp->m_stack_state, sizeof sp->m_stack_state) == c.v) return true; }
+            else if (c.k == "rc") { if (sp && rd(&sp->m_is_owner_recalled, sizeof sp->m_is_owner_recalled) == c.v) return true; }
+            else if (c.k == "cnt") { if (g.picks >= c.v) return true; }
+            else if (c.k == "blk") { if (g.blk >= 3) return true; }
+        }
+        return false;
+    }
+    // the state of the sleep hand-shake when a guide ends: pool state (0 UNSET, 1 SET, 2 busy), wait-set size, was the
+    // preferred thread blocked
+    static GuideEnd snapshot(const Guide& g) {
+        GuideEnd e{g.picks, -1, -1, g.blk >= 3 ? 1 : 0};
+        if (S[0].td && S[0].td->my_arena) { long v = rd(&S[0].td->my_arena->my_pool_state.my_state, sizeof(std::uintptr_t)); e.pool = v > 1 ? 2 : (int)v; }
+        if (S[0].wscount) e.ws = (int)rd(S[0].wscount, sizeof(std::size_t));
+        return e;
+    }
+    bool in_class(char who, int t) {
+        bool foreign = t >= 1 && t <= g_nforeign;
+        if (t == g_ticker_tid) return false;
+        switch (who) {
+        case 'L': return t == g_leaver0;
+        case 'F': return t == 1;
+        case 'M': return t == 0;
+        case 'W': return t != 0 && !foreign;
+        case 'R': return t != 1;
+        default: return true;
+        }
+    }
+    int pick(int cur, const std::vector<int>& en, size_t step) override {
+        while (pos < g_guides.size() && holds(g_guides[pos])) { g_guide_picks.push_back(snapshot(g_guides[pos])); ++pos; }
+        if (pos >= g_guides.size()) {
+            g_tick_stop = true;
+            return rnd.pick(cur, en, step);
+        }
+        Guide& g = g_guides[pos];
+        std::vector<int> c;
+        for (int t : en) if (in_class(g.who, t)) c.push_back(t);
+        if (!c.empty()) {
+            g.picks++; g.blk = 0; g.starve = 0;
+            return c.size() == 1 ? c[0] : rnd.pick(has(c, cur) ? cur : -1, c, step);
+        }
+        // nobody of the preferred class is runnable: hold everybody else and let the ticker make spinners runnable again.
+        // If the class stays empty through 3 ticker writes it is BLOCKED (futex wait, e.g. on a lock that a held thread
+        // owns): unless the guide ends on `blk`, the other threads run until the class is runnable again.
+        if (g.blk < 3 && has(en, g_ticker_tid)) { g.blk++; return g_ticker_tid; }
+        if (++g.starve > 20000) { GuideEnd ge = snapshot(g); ge.picks = -1; g_guide_picks.push_back(ge); ++pos; return pick(cur, en, step); }
+        std::vector<int> o;
+        for (int t : en) if (t != g_ticker_tid) o.push_back(t);
+        if (o.empty()) return en[0];
+        return rnd.pick(has(o, cur) ? cur : -1, o, step);
+    }
+};
+
+static void ticker_body() {
+    while (!g_tick_stop) { g_tick.fetch_add(1); verif::pause_point(); }
+}
 
 static std::string rle(const std::vector<int>& s) {
     std::ostringstream o;
@@ -302,27 +536,46 @@ int main(int argc, char** argv) {
         sigaction(SIGSEGV, &sa, &g_prev_segv);
         sigaction(SIGBUS, &sa, nullptr);
     }
-    if (argc < 7) { fprintf(stderr, "usage: sr <container> <P> <modes> <nwork> <nest> rand <seed> | target <k> <seed> | replay <rle>\n"); return 2; }
-    g_container = argv[1]; g_P = atoi(argv[2]); g_modes = argv[3]; g_NW = atoi(argv[4]); g_nest = atoi(argv[5]);
+    if (argc < 7) { fprintf(stderr, "usage: sr <container> <P> <modes> <nwork> <nest> rand <seed> | target <k> <seed> | guide <seed> <spec> | replay <rle> [ticker]\n"); return 2; }
+    g_container = argv[1]; g_P = atoi(argv[2]); g_modes = argv[3]; g_NW = atoi(argv[4]); g_flags = atoi(argv[5]);
     g_NS = (int)g_modes.size();
     if (g_NS < 1 || g_NS > MAXS || g_P < 1) return 2;
     std::string mode = argv[6];
     int nforeign = 0;
-    for (char c : g_modes) if (c == 'f') nforeign = nforeign < 2 ? nforeign + 1 : 2;
+    for (char c : g_modes) if (foreign_mode(c)) nforeign = nforeign < 2 ? nforeign + 1 : 2;
     std::vector<std::function<void()>> bodies;
     bodies.push_back(main_body);
     for (int k = 0; k < nforeign; ++k) bodies.push_back([k, nforeign] { foreign_body(k, nforeign); });
 
+    g_nforeign = nforeign; g_nforeign_bodies = nforeign;
     verif::Result r;
     if (mode == "rand" && argc >= 8) {
         verif::RandomSchedule rs(strtoull(argv[7], nullptr, 10));
-        r = verif::run(bodies, rs, MAX_STEPS);
+        Sampling sm(rs);
+        r = verif::run(bodies, sm, MAX_STEPS);
     } else if (mode == "target" && argc >= 9) {
         TargetedSchedule ts(strtoull(argv[8], nullptr, 10), 1, atoi(argv[7]));
-        r = verif::run(bodies, ts, MAX_STEPS);
+        Sampling sm(ts);
+        r = verif::run(bodies, sm, MAX_STEPS);
+    } else if (mode == "guide" && argc >= 9) {
+        if (!parse_guides(argv[8])) return 2;
+        g_ticker_tid = (int)bodies.size();
+        bodies.push_back(ticker_body);
+        GuidedSchedule gs(strtoull(argv[7], nullptr, 10));
+        Sampling sm(gs);
+        r = verif::run(bodies, sm, MAX_STEPS);
     } else if (mode == "replay" && argc >= 8) {
-        verif::ReplaySchedule rp; rp.tids = unrle(argv[7]);
-        r = verif::run(bodies, rp, MAX_STEPS);
+        // a replayed guided run has the ticker thread too (argv[8] = "ticker"); it stops when the recorded schedule ends
+        if (argc >= 9 && std::string(argv[8]) == "ticker") { g_ticker_tid = (int)bodies.size(); bodies.push_back(ticker_body); }
+        struct Rp : verif::ReplaySchedule {
+            int pick(int cur, const std::vector<int>& en, size_t step) override {
+                if (step >= tids.size()) g_tick_stop = true;
+                return verif::ReplaySchedule::pick(cur, en, step);
+            }
+        } rp;
+        rp.tids = unrle(argv[7]);
+        Sampling sm(rp);
+        r = verif::run(bodies, sm, MAX_STEPS);
     } else return 2;
 
     // after a deadlock the main body never reached collect(); the arenas are still alive (their threads are stuck)
@@ -338,12 +591,17 @@ int main(int argc, char** argv) {
         verif::name_addr(&sp->m_is_owner_recalled, n + ".rc");
         verif::name_value((uint64_t)p, n);
     }
+    // the arena of the thread that made suspension 0 (by saved address: the arena may be gone by now)
+    if (S[0].pooladdr) verif::name_addr(S[0].pooladdr, "poolL");
+    if (S[0].rtsaddr) verif::name_addr(S[0].rtsaddr, "rtsL");
+    if (S[0].ctsaddr) verif::name_addr(S[0].ctsaddr, "ctsL");
     for (auto& kv : spname) printf("sp %s %s\n", kv.second.c_str(), g_spkind.count(kv.first) ? g_spkind[kv.first].c_str() : "co");
     for (auto& e : r.log) {
         if (e.kind == verif::K_NOTE) { printf("e %s\n", verif::format_event(e).c_str()); continue; }
         if (!e.addr) continue;
         std::string n = verif::addr_name(e.addr);
         if (n.compare(0, 4, "anon") != 0) printf("e %s\n", verif::format_event(e).c_str());
+        else if (getenv("C20_ALL_EVENTS")) printf("x %s\n", verif::format_event(e).c_str());
     }
     // property monitors (implementation side, independent of the model)
     if (r.deadlock && r.steps >= MAX_STEPS) {
@@ -365,7 +623,12 @@ int main(int argc, char** argv) {
     printf("mon %s\n", g_viol.empty() ? "ok" : g_viol[0].c_str());
     for (size_t i = 1; i < g_viol.size(); ++i) printf("mon+ %s\n", g_viol[i].c_str());
     for (int i = 0; i < g_NS; ++i)
-        printf("stat susp %d cb_tid %d cont_tid %d work_by_suspender %d\n", i, S[i].cb_tid, S[i].cont_tid, S[i].work_by_suspender);
+        printf("stat susp %d cb_tid %d cont_tid %d work_by_suspender %d prework_tid %d prework_during %d isolated %d co_seen %d co_inherit_first %d co_inherit_any %d co_zero %d\n",
+               i, S[i].cb_tid, S[i].cont_tid, S[i].work_by_suspender, S[i].prework_tid, (int)S[i].prework_during, (int)(S[i].susp_iso != 0), (int)S[i].co_seen,
+               (int)(S[i].co_seen && S[i].susp_iso != 0 && S[i].co_iso_first == S[i].susp_iso), (int)(S[i].co_seen && S[i].susp_iso != 0 && S[i].co_iso_max == S[i].susp_iso),
+               (int)(S[i].co_seen && S[i].co_iso_first == 0 && S[i].co_iso_max == 0));
+    for (size_t i = 0; i < g_guide_picks.size(); ++i)
+        printf("stat guide %zu picks %ld pool %d ws %d blk %d\n", i, g_guide_picks[i].picks, g_guide_picks[i].pool, g_guide_picks[i].ws, g_guide_picks[i].blk);
     printf("stat steps %zu work_runs %d nsps %zu deadlock %d\n", r.steps, g_work_runs, g_sps.size(), (int)r.deadlock);
     printf("sched %s\n", rle(r.schedule).c_str());
     fflush(stdout);
